@@ -140,13 +140,17 @@ Example C16_example_sync :
 Proof. split; [exact f7_sync_honest|exact sync_f7_repaired]. Qed.
 
 (* a proposer run: fetch at start, execute at the duty's slot, indices change, re-fetch after executing *)
+Definition ex_d5 : duty := {| d_slot := 5; d_vidx := 3; d_tag := 9; d_inc := true |}.
+Definition ex_prop_evs : list event :=
+  [Tick 4 4 (AOk [ex_d5]) AFail; Indices 4; Tick 5 5 (AOk [ex_d5]) AFail].
 Example C16_example_proposer :
-  let c := new_small in
-  let d5 := {| d_slot := 5; d_vidx := 3; d_tag := 9; d_inc := true |} in
-  let i := prop_init c 4 (AOk [d5]) in
-  map snd (snd (run (prop_step c) (fst i)
-                  [Tick 4 4 (AOk [d5]) AFail; Indices 4; Tick 5 5 (AOk [d5]) AFail])) =
-  [ ([OFetch 1 1 (AOk [d5])], [], []);
+  cfg_ok new_small /\ honest true 4 ex_prop_evs /\
+  map snd (snd (run (prop_step new_small) (fst (prop_init new_small 4 (AOk [ex_d5]))) ex_prop_evs)) =
+  [ ([OFetch 1 1 (AOk [ex_d5])], [], []);
     ([], [], []);
-    ([], [ODispatch RProposer 5 3 9], [OFetch 1 1 (AOk [d5])]) ].
-Proof. vm_compute. reflexivity. Qed.
+    ([], [ODispatch RProposer 5 3 9], [OFetch 1 1 (AOk [ex_d5])]) ].
+Proof.
+  split; [split; vm_compute; discriminate|]. split; [|vm_compute; reflexivity].
+  unfold honest, ex_prop_evs. simpl.
+  repeat split; auto; try (vm_compute; discriminate); repeat constructor; simpl; tauto.
+Qed.
